@@ -3,7 +3,7 @@
           visit sequences in order, floats bit for bit);
    prop = the law's boolean checker accepts the implementation's observed output. *)
 From Coq Require Import ZArith String List Bool Floats.
-From SID Require Import Base Str Wire F64 ExactRef SetOps Comb VecF.
+From SID Require Import Base Str Wire F64 ExactRef SetOps Comb VecF OrdMax PointLaws.
 Import ListNotations.
 Local Open Scope list_scope.
 Open Scope string_scope.
@@ -314,7 +314,7 @@ Fixpoint dvecs_of (l : list fvec) : option (list dvec) :=
   end.
 Definition res_pt (r : result fvec) : val := match r with Ok p => of_fvec p | Err => VE (of_fvec (FV 0 0 0)) end.
 Definition unique_append (pts : list fvec) (p : fvec) (eps : float) : list fvec :=
-  if existsb (fun x => fis_close x p eps) pts then pts else pts ++ [p].
+  uappend (fun x q => fis_close x q eps) pts p.              (* PointLaws.uappend: appended iff no member IsClose to p *)
 Definition pointops_model (pts : list fvec) (v p q : fvec) (eps : float) : val :=
   VL [res_pt (fmax_point true pts v); res_pt (fmax_point false pts v); VB (fis_close p q eps);
       VL (map of_fvec (unique_append pts p eps)); VB (almost_equal (fx p) (fx q) eps); VF (deg2rad eps); VF (rad2deg eps)].
@@ -357,6 +357,49 @@ Definition d_pointops (args : list val) (obs : val) : verdict :=
   | _ => bad_case
   end.
 
+(* Max / Min at float64: bit-identical to a member, bounding every member (exact dyadic comparison); -0 / +0 and equal elements: the
+   model keeps the first one, as the code does *)
+Definition as_LF (v : val) : option (list float) := match as_L v with Some l => all_opt (map as_F l) | None => None end.
+Definition d_maxminF (is_max : bool) (args : list val) (obs : val) : verdict :=
+  match args with
+  | [a] => match as_LF a with
+           | Some l =>
+               let m := if is_max then maxF l else minF l in
+               let mv := match m with Ok z => VF z | Err => VE (VF 0%float) end in
+               let corr := match m, obs with Err, VE _ => true | Ok z, VF o => feqb_bits z o | _, _ => false end in
+               let prop := match l, obs with
+                           | [], VE _ => true
+                           | _ :: _, VF o =>
+                               match dlist_of l, dy_of o with
+                               | Some dl, Some d =>
+                                   existsb (feqb_bits o) l && forallb (fun x => if is_max then dleb x d else dleb d x) dl
+                               | None, _ => true            (* NaN / infinite members: no order claimed *)
+                               | Some _, None => false
+                               end
+                           | _, _ => false end in
+               mkv corr prop "-" mv
+           | None => bad_case end
+  | _ => bad_case
+  end.
+
+(* NewMatrix3(m00 .. m22): every element read back in row-major order, and the three columns through MulVec of the basis vectors *)
+Definition d_newmatrix (args : list val) (obs : val) : verdict :=
+  match as_fmat (VL args) with
+  | Some a =>
+      let m := VL [of_fmat a; of_fvec (fmulvec a (FV 1 0 0)); of_fvec (fmulvec a (FV 0 1 0)); of_fvec (fmulvec a (FV 0 0 1))] in
+      let prop :=
+        match dmat_of a, obs with
+        | Some da, VL [om; c0; c1; c2] =>
+            match opt_mat om, opt_vec c0, opt_vec c1, opt_vec c2 with
+            | Some dm, Some v0, Some v1, Some v2 =>
+                dm_eqb dm da && dv_eqb v0 (dm_col dvx da) && dv_eqb v1 (dm_col dvy da) && dv_eqb v2 (dm_col dvz da)
+            | _, _, _, _ => false end
+        | None, _ => true
+        | _, _ => false end in
+      mkv (val_eqb m obs) prop "-" m
+  | None => bad_case
+  end.
+
 Definition table_C20 : table :=
   [("Union/int64", fun _ => d_union Z.eqb sort_Z as_LZ of_LZ); ("Union/string", fun _ => d_union String.eqb sort_strings as_LS of_LS);
    ("Unique/int64", fun _ => d_unique Z.eqb sort_Z as_LZ of_LZ); ("Unique/string", fun _ => d_unique String.eqb sort_strings as_LS of_LS);
@@ -364,6 +407,7 @@ Definition table_C20 : table :=
    ("Intersect/int64", fun _ => d_intersect Z.eqb as_LZ of_LZ); ("Intersect/string", fun _ => d_intersect String.eqb as_LS of_LS);
    ("Include/int64", fun _ => d_include Z.eqb as_LZ as_Z); ("Include/string", fun _ => d_include String.eqb as_LS as_S);
    ("Max/int64", fun _ => d_maxmin true); ("Min/int64", fun _ => d_maxmin false);
+   ("Max/float64", fun _ => d_maxminF true); ("Min/float64", fun _ => d_maxminF false); ("NewMatrix3", fun _ => d_newmatrix);
    ("CalculateArithmeticShift", fun _ => d_ashift);
    ("Combinations", fun _ => d_comb);
    ("VecOps", d_vecops); ("LineOps", fun _ => d_lineops); ("MatOps", fun _ => d_matops);
